@@ -559,7 +559,12 @@ class HamacherSum(SNorm):
         """
         a = scalar(a)
         b = scalar(b)
-        return np.where(a * b != 1.0, (a + b - 2.0 * a * b) / (1.0 - a * b), 1.0)
+        return np.where(
+            a * b != 1.0,
+            # clip to [max(a,b), 1] as the division is ill-conditioned when a*b approaches 1
+            np.clip((a + b - 2.0 * a * b) / (1.0 - a * b), np.maximum(a, b), 1.0),
+            1.0,
+        )
 
 
 class Maximum(SNorm):
